@@ -117,7 +117,7 @@ CLAIMED = {
                      'by Jinja2/ZPT templates (compiled template code is beyond the engine). open() is captured in memory.',
                 ref='DESIGN.md section 5 C13'),
     'C14': dict(level='model_checking',
-                text='The real base Renderer renders 3 skeletons (labels on sections, subsections, an equation; references from other units; footnotes at three depths; article, book, '
+                text='The real base Renderer renders 4 skeletons (citations with a bibliography and index entries with \\printindex; labels on sections, subsections, an equation; references from other units; footnotes at three depths; article, book, '
                      'deep nesting) x base-url empty/set with the split level, toc-depth and toc-non-files symbolic (z3): while the renderable mixin is active every node URL is its own '
                      'file or nearest file-producing ancestor file + #id, that file is produced, every reference link names the file its target is rendered into with the target id as '
                      'fragment, identifiers are unique per file, every footnote is gathered by the unit producing its file and its mark links there, and with sufficient toc-depth every '
@@ -212,7 +212,9 @@ def main():
                                        '16-way prefix partitioning, concrete replay of every counterexample against the uninstrumented package'}],
         'checks': checks,
         'not_applicable': na,
-        'notes': 'Exit codes: 0 held within bounds, 1 VIOLATION (replayed), 3 inconclusive. Genuine defects repaired in /repo are listed as fixed in known_findings.json.',
+        'notes': 'Exit codes: 0 held within bounds, 1 VIOLATION (replayed), 3 inconclusive. Genuine defects repaired in /repo are listed as fixed in known_findings.json; '
+                 'defects recorded rather than repaired (status known there; DESIGN.md section 4) are printed as KNOWN-FINDING lines by the checks of C02, C04, C05, C07, C10 and C17 and their '
+                 'obligations are reported apart from the proved ones.',
     }
     json.dump(m, open(os.path.join(ROOT, 'MANIFEST.json'), 'w'), indent=1)
     print('MANIFEST.json: %d checks, %d not_applicable' % (len(checks), len(na)))
